@@ -151,6 +151,31 @@ CHECKS = {
         "scripted transport instead of a network; log destination file only; "
         "outcome equality by canonical digest / exception class+args",
         "DESIGN.md 4-C19", "observer"),
+    "C05": (
+        "TLA+ requirement AbsEq/AbsHashClass/MustIndep over abstract CIM object "
+        "trees; code-shaped __eq__/__hash__ and a heap model of copy()/copy.copy/"
+        "deepcopy/pickle + mutation model-checked by TLC; TLC-enumerated objects, "
+        "pairs, triples and heap behaviours built as real objects and every "
+        "observed vector judged by TLC",
+        "TLC checks on a bounded universe of all 11 kinds (2 names x 2 cases, "
+        "None/two values per attribute, <=2 children in both orders) that the "
+        "four-valued requirement AbsEq is sandwiched between two kernels (so every "
+        "admissible == is an equivalence with a lawful hash, blind to case and "
+        "bag order, sensitive to each attribute) and that the transcription of "
+        "pywbem's and-chains, _eq_*/_hash_* helpers and NocaseDict eq/hash agrees "
+        "with it on ALL same-kind pairs (three wrong variants fail); a heap "
+        "state machine proves the documented depth of copy()/copy.copy/deepcopy/"
+        "pickle independent under <=2 mutations and tight (two wrong variants "
+        "fail). Every near pair, the == classes, every heap behaviour (thorough: "
+        "every ordered pair of the universe) plus seeded rich objects are built "
+        "as real objects; ==, !=, hash, set/dict membership, copies and the "
+        "effect of mutating every reachable cell of each copy are recorded and "
+        "each vector is judged by TLC against the requirement.",
+        "small-scope universe; NaN-free; cross-kind == out of scope; same number "
+        "in different Python types, None vs flag default, datetime spellings of "
+        "one instant accepted both ways; embedded/reference values may be shared "
+        "by copy(); names fold by str.lower() only",
+        "DESIGN.md 4-C05", "cimeq"),
     "C10": (
         "TLA+ reference keyed map with set-valued status codes (RepoCore); "
         "code-shaped validation-order + dict/heap machine refinement in TLC; "
